@@ -650,3 +650,31 @@ func H_C14_nested_calls() {
 	verifAssert(a.Count() == 5 && b.Count() == 4, "typed views do not modify the list")
 	verifReach("end")
 }
+
+
+// a callback that rewrites a not yet visited element of the list being walked (Replace: the length does not
+// change): every visit still gets the index and the value Get returns at that moment
+func H_C14_callback_rewrites_later_element() {
+	x, y := nondetInt(), nondetInt()
+	which := nondetIntRange(0, 2)
+	l := NewList(x, "s", y, nil)
+	ok, calls := true, 0
+	visit := func(i int, v any) {
+		ok = ok && i == calls && i < l.Count() && v == l.Get(i)
+		calls++
+		if i+1 < l.Count() {
+			l.Replace(i+1, 1000+i)
+		}
+	}
+	switch which {
+	case 0:
+		l.ForEach(visit)
+	case 1:
+		l.ForEachValue(func(v any) { visit(calls, v) })
+	default:
+		l.Map(func(i int, v any) any { visit(i, v); return nil })
+	}
+	verifAssert(ok && calls == 4, "ForEach/Map visit every element once in order with its index and the value Get returns")
+	verifAssert(l.Count() == 4 && l.GetInt(0) == x && l.GetInt(1) == 1000 && l.GetInt(2) == 1001 && l.GetInt(3) == 1002, "the list holds what the callback wrote")
+	verifReach("end")
+}
